@@ -517,6 +517,11 @@ func configs(quick bool) []Config {
 			}
 		}
 	}
+	// thresholds off the round values: error counts with a fraction below one half (rounding and truncation differ
+	// from "reaches the threshold"), ratios of one quarter
+	for _, b := range []BSpec{{2, 0.25, 0, 5, 10, 1, 0}, {2, 2.25, 0, 5, 10, 1, 0}, {2, 2.25, 2, 10, 20, 2, 1}, {0, 0.25, 2, 5, 10, 1, 0}, {1, 0.25, 3, 5, 20, 2, 1}} {
+		out = append(out, Config{B: []BSpec{b}})
+	}
 	// two breakers on the resource: a probe of the first can be blocked by the second
 	two := [][]BSpec{
 		{{1, 0.5, 2, 5, 10, 1, 0}, {2, 1, 0, 10, 20, 2, 0}},
